@@ -56,7 +56,7 @@ def _track(name, err, tol):
         if r > WORST.get(name, 0.0):
             WORST[name] = r
         if r > 1e-3:
-            CTX.event(f'within-3-decades-of-threshold:{name}')
+            CTX.event(f'within-{"2" if r > 1e-2 else "3"}-decades-of-threshold:{name}')
 
 
 # ------------------------------------------------------------------------------------------ class labels
@@ -723,16 +723,20 @@ def _run(ctx):
         add(lambda fam=fam: shapes_unit(ctx, P, fam, (), shape_orders, ctx.rng('shapes', fam)), 1)
 
     # ---- M2: Gram matrices of the 1-D families
+    # tolerance on |G - I|: quadrature-side round-off (scipy Gauss-Jacobi nodes/weights, lgamma norms) measured in recon:
+    # classical parameters 4e-14 (n<=40) / 1.2e-12 (n<=150); general parameters 3e-11 / 9e-11  ->  >= 3 decades below
+    def GT(nmax):
+        return 1e-9 if nmax <= 40 else 1e-8
     for ab in JAC_PARAMS + JAC_NONDYADIC + extra[:2]:
         classical = jac_pclass(*ab) in ('a=b=0', 'half-integer') or ab in ((0.0, 4.0), (0.0, 1.0), (0.0, 7.0))
         nm = NJ if ab in JAC_PARAMS else ctx.pick(30, 60)
         add(lambda ab=ab, nm=nm, classical=classical: gram_1d_unit(
             ctx, P, 'jacobi', ab, nm, E.gauss_jacobi(nm + 2, *ab), lambda n: math.log(E.jacobi_h(n, *ab)),
-            1e-9 if classical else 1e-7, 'gram.jacobi'), 2)
-    add(lambda: gram_1d_unit(ctx, P, 'legendre', (), NJ, E.gauss_jacobi(NJ + 2, 0, 0), lambda n: math.log(2 / (2 * n + 1)), 1e-9, 'gram.legendre'), 2)
+            GT(nm) if classical else 100 * GT(nm), 'gram.jacobi'), 2)
+    add(lambda: gram_1d_unit(ctx, P, 'legendre', (), NJ, E.gauss_jacobi(NJ + 2, 0, 0), lambda n: math.log(2 / (2 * n + 1)), GT(NJ), 'gram.legendre'), 2)
     for kind, (a, b) in ((1, (-.5, -.5)), (2, (.5, .5)), (3, (-.5, .5)), (4, (.5, -.5))):
         add(lambda kind=kind, a=a, b=b: gram_1d_unit(ctx, P, f'cheby{kind}', (), NJ, E.gauss_jacobi(NJ + 2, a, b),
-                                                     lambda n: math.log(E.cheby_h(kind, n)), 1e-9, 'gram.cheby'), 2)
+                                                     lambda n: math.log(E.cheby_h(kind, n)), GT(NJ), 'gram.cheby'), 2)
     for kind, fam in (('He', 'hermite_He'), ('H', 'hermite_H')):
         add(lambda kind=kind, fam=fam: gram_1d_unit(ctx, P, fam, (), NH, E.gauss_hermite(kind, NH + 2),
                                                     lambda n: E.log_hermite_h(kind, n), 1e-9, 'gram.hermite'), 1)
